@@ -6,9 +6,14 @@
 //!   (c12 (cfg http|grpc proto|json GZIP LIMIT) (sig LOGS TRACES METRICS) (dead SIGNAL…)
 //!        (events (ev ID log|span|metric xMDL PAD SIZE)…)            PAD ::= N | (rnd N)
 //!        (script (logs R…) (traces R…) (metrics R…)) (end flush|drop))
-//!   R ::= ack | ackbody | (status N) | (grpc N) | (grpch N) | stall | stallh | rstb | rsta
+//!   R ::= ack | ackbody | (status N) | (grpc N) | (grpch N) | stall | stallh | rsth | drph | rstb | rsta
 //!   PAD N = `pad` property of N times 'a'; (rnd N) = N chars of pseudo-random hex text seeded by the id (poorly
 //!   compressible: exercises multi-call gzip output). stallh (gRPC only) = response HEADERS, then silence.
+//!   rsth (gRPC only) = response HEADERS (`:status 200`, no grpc-status), then RST_STREAM before any trailers.
+//!   drph = response HEADERS (200; HTTP: content-length 64 and 10 bytes of body), then the CONNECTION is dropped:
+//!   gRPC - a failure (no trailers ever came); HTTP - acknowledged by the status line (the body is never read);
+//!   either way the client has pooled a sender whose connection is gone: its next attempt fails without
+//!   reaching the collector and uses up one retry.
 //!   LIMIT = request size limit (hook H4), PAD = length of the `pad` text property, SIZE = length of the encoded
 //!   event payload (measured by the generator on the real encoder; re-checked on the wire by the runner).
 //!   end: `flush` = call `blocking_flush`; `drop` = drop the emitter instead and wait for its worker thread to end.
@@ -132,6 +137,8 @@ fn resp_sexp(r: Resp) -> Sexp {
         Resp::GrpcStatusHeaders(n) => Sexp::tagged("grpch", vec![Sexp::num(n)]),
         Resp::Stall => Sexp::atom("stall"),
         Resp::StallAfterHeaders => Sexp::atom("stallh"),
+        Resp::ResetAfterHeaders => Sexp::atom("rsth"),
+        Resp::DropAfterHeaders => Sexp::atom("drph"),
         Resp::ResetBefore => Sexp::atom("rstb"),
         Resp::ResetAfter => Sexp::atom("rsta"),
         Resp::Hold => Sexp::atom("hold"),
@@ -145,6 +152,8 @@ fn resp_parse(s: &Sexp) -> Option<Resp> {
             "ackbody" => Resp::AckBody,
             "stall" => Resp::Stall,
             "stallh" => Resp::StallAfterHeaders,
+            "rsth" => Resp::ResetAfterHeaders,
+            "drph" => Resp::DropAfterHeaders,
             "rstb" => Resp::ResetBefore,
             "rsta" => Resp::ResetAfter,
             _ => return None,
@@ -178,6 +187,8 @@ fn resp_show(r: Resp) -> String {
         Resp::GrpcStatusHeaders(n) => format!("grpch{}", n),
         Resp::Stall => "stall".into(),
         Resp::StallAfterHeaders => "stallh".into(),
+        Resp::ResetAfterHeaders => "rsth".into(),
+        Resp::DropAfterHeaders => "drph".into(),
         Resp::ResetBefore => "rstb".into(),
         Resp::ResetAfter => "rsta".into(),
         Resp::Hold => "hold".into(),
@@ -324,7 +335,7 @@ impl Case {
             }
             script[i] = rs.iter().map(resp_parse).collect::<Option<Vec<_>>>()?;
         }
-        if transport == Transport::Http && script.iter().flatten().any(|r| matches!(r, Resp::GrpcStatus(_) | Resp::GrpcStatusHeaders(_) | Resp::StallAfterHeaders)) {
+        if transport == Transport::Http && script.iter().flatten().any(|r| matches!(r, Resp::GrpcStatus(_) | Resp::GrpcStatusHeaders(_) | Resp::StallAfterHeaders | Resp::ResetAfterHeaders)) {
             return None; // an OTLP/HTTP endpoint does not speak grpc-status; the HTTP path never reads the response body
         }
         Some(Case { transport, enc, gzip, limit, sig, dead, events, script, drop })
@@ -391,14 +402,14 @@ fn emit_event(otlp: &emit_otlp::Otlp, id: i64, kind: Kind, mdl: &str, pad: Pad) 
     let ext;
     match kind {
         Kind::Log => {
-            ext = Ext::Point(1_000_000 + id.unsigned_abs());
+            ext = Ext::Point(1_000_000 + id.unsigned_abs() as u128);
         }
         Kind::Span => {
-            ext = Ext::Range(1_000_000, 2_000_000 + id.unsigned_abs());
+            ext = Ext::Range(1_000_000, 2_000_000 + id.unsigned_abs() as u128);
             props.push(("evt_kind".into(), V::Kind(emit::Kind::Span)));
         }
         Kind::Metric => {
-            ext = Ext::Point(1_000_000 + id.unsigned_abs());
+            ext = Ext::Point(1_000_000 + id.unsigned_abs() as u128);
             props.push(("evt_kind".into(), V::Kind(emit::Kind::Metric)));
             props.push(("metric_name".into(), V::Str("m".into())));
             props.push(("metric_agg".into(), V::Str("count".into())));
@@ -600,7 +611,7 @@ fn run_c12(line: &str) -> String {
                 }
             }
             // "a broken connection is replaced by a fresh one"
-            if r.resp.is_ack() {
+            if r.resp.is_ack(r.grpc) {
                 for id in ids.iter().flatten() {
                     *acked.entry(*id).or_insert(0) += 1;
                 }
@@ -608,6 +619,9 @@ fn run_c12(line: &str) -> String {
             } else {
                 failures += 1;
                 prev_failed = Some(ids);
+            }
+            if r.resp.leaves_stale_sender() {
+                failures += 1; // the client's next attempt fails on the pooled sender (an upper bound: there may be none)
             }
         }
         // delivery: every id routed here is acknowledged at least once unless the retries were exhausted or the
@@ -674,22 +688,25 @@ fn measure(case: &mut Case) -> bool {
 
 fn gen_resp(rng: &mut Rng, transport: Transport, tier: Tier) -> Resp {
     // failures are drawn from what the property lists: non-2xx status, non-zero gRPC status, reset before/after
-    // reading, timeout (stall; rare — each costs the request timeout)
+    // reading or after the response headers, timeout (stall; rare — each costs the request timeout)
     let stall_den = if tier == Tier::Thorough { 6 } else { 12 };
     if rng.chance(1, stall_den) {
         // a stall at any point of the exchange is a timeout: before any answer, or (gRPC) after the headers
         return if transport == Transport::Grpc && rng.bool() { Resp::StallAfterHeaders } else { Resp::Stall };
     }
     match transport {
-        Transport::Http => match rng.below(6) {
+        Transport::Http => match rng.below(7) {
             0 => Resp::Status(*rng.pick(&[500u16, 503, 429, 400, 404, 301, 599])),
             1 => Resp::Status(*rng.pick(&[300u16, 299, 204, 201])),
             2 => Resp::ResetBefore,
             3 => Resp::ResetAfter,
             4 => Resp::AckBody,
+            // a 200 whose body breaks mid-way with the connection: acknowledged by its status line (the HTTP
+            // transport never reads the body), but the pooled connection is gone
+            5 => Resp::DropAfterHeaders,
             _ => Resp::Ack,
         },
-        Transport::Grpc => match rng.below(8) {
+        Transport::Grpc => match rng.below(10) {
             0 => Resp::GrpcStatus(*rng.pick(&[14u32, 2, 8, 13, 16, 1])),
             1 => Resp::GrpcStatus(0),
             2 => Resp::ResetBefore,
@@ -699,6 +716,10 @@ fn gen_resp(rng: &mut Rng, transport: Transport, tier: Tier) -> Resp {
             // (grpc-status in the headers) and a plain HTTP error without any grpc-status
             5 => Resp::GrpcStatusHeaders(*rng.pick(&[14u32, 8, 4, 0])),
             6 => Resp::Status(*rng.pick(&[503u16, 502, 429, 404, 204])),
+            // a response that breaks between its `:status 200` headers and its trailers - the stream is reset, or
+            // the whole connection goes: no grpc-status was ever received, so it is not an acknowledgement
+            7 => Resp::ResetAfterHeaders,
+            8 => Resp::DropAfterHeaders,
             _ => Resp::Ack,
         },
     }
